@@ -682,6 +682,32 @@ func propC36(t *rapid.T) {
 		fmt.Fprintf(&fp, "G|%s|%d|%d|%v|%x|%d|%s|%s;", gi.vname, chain, block, finalized, hash, seen, shared, s.canon())
 	}
 
+	// Directed tail (cases that may use large payloads, 1 in 2 of them): two or three DIFFERENT
+	// replies above the compression threshold are stored one after the other under different keys
+	// and then all read back - an entry must not be affected by what was stored (compressed) after it.
+	if allowBig && uni(t, 2, "bigtail") == 0 {
+		w.classes["scenario:consecutive-compressed-entries"] = true
+		base := bases[0]
+		n := 2 + uni(t, 2, "bigtailn")
+		first := len(w.sets)
+		op := opBase + nOps
+		for i := 0; i < n; i++ {
+			pay := paySpec{Seed: rapid.Uint32().Draw(t, "tailseed"), Class: "big", Content: pick(t, []string{"json", "text", "json"}, "tailcontent"),
+				Size: pick(t, []int{threshold + 17, threshold + 4096, threshold * 3 / 2}, "tailsize")}
+			block := int64(5_000_000 + 10*i + uni(t, 5, "tailblock"))
+			w.doSet(op, base, "base", 0, block, true, nil, pay, block, block, "", int64(3600e9), false, true, nil)
+			fmt.Fprintf(&fp, "S|tail|%d|%s|%d;", block, pay.Content, pay.Size)
+			op++
+		}
+		for i := first; i < len(w.sets); i++ {
+			from := w.sets[i]
+			gi := getInfo{vname: "exact(after-later-compressed-sets)", implSame: true, from: from}
+			w.doGet(op, from.spec.clone(), gi, from.chain, from.block, from.finalized, from.hash, 0, from.shared)
+			fmt.Fprintf(&fp, "G|tail|%d;", from.block)
+			op++
+		}
+	}
+
 	cls := make([]string, 0, len(w.classes))
 	for k := range w.classes {
 		cls = append(cls, k)
